@@ -46,3 +46,28 @@ def statements():
             if s not in seen:
                 seen.add(s); out.append(s)
     return out
+
+
+# ---- signed operands: comparisons (BMI / BPL), widening (sign extension), shifts; directly and inside an inline function
+SDECL = "signed char g0, g1; short z0; unsigned char v0; signed char h0[4];\n"
+
+
+def signed_statements():
+    out = []
+    for a in ("g0", "h0[X]", "h0[1]", "z0"):
+        for op in ("<", ">=", ">", "<=", "==", "!="):
+            for b in ("0", "g1", "5", "-3"):
+                out.append("if (%s %s %s) v0 = 1;" % (a, op, b))
+                out.append("while (%s %s %s) { %s++; }" % (a, op, b, "g0" if a != "g0" else "g1"))
+    for src in ("g0", "h0[X]", "h0[2]", "-g0", "g0 >> 1", "g0 + g1"):
+        out += ["z0 = %s;" % src, "z0 += %s;" % src, "v0 = %s;" % src]
+    return out
+
+
+def signed_programs():
+    """each statement in main, and in an inline function expanded twice (labels and branches of every kind renamed)"""
+    out = []
+    for st in signed_statements():
+        out.append(SDECL + "void main() { %s }\n" % st)
+        out.append(SDECL + "inline void k() { %s }\nvoid main() { k(); v0 = 2; k(); }\n" % st)
+    return out
